@@ -14,12 +14,29 @@
 (***************************************************************************)
 EXTENDS Naturals, TLC
 
-CONSTANTS T,            \* the handshake timeout in ticks
-          Delays,       \* candidate client delays in ticks
-          Never         \* a delay meaning "the client stalls forever"
+CONSTANTS
+    \* @type: Int;
+    T,            \* the handshake timeout in ticks
+    \* @type: Set(Int);
+    Delays,       \* candidate client delays in ticks
+    \* @type: Int;
+    Never         \* a delay meaning "the client stalls forever"
 
-VARIABLES phase,        \* "hello" | "accept" | "served" | "dropped"
-          now, stageStart, dHello, dFin, droppedAt, servedAt
+VARIABLES
+    \* @type: Str;
+    phase,        \* "hello" | "accept" | "served" | "dropped"
+    \* @type: Int;
+    now,
+    \* @type: Int;
+    stageStart,
+    \* @type: Int;
+    dHello,
+    \* @type: Int;
+    dFin,
+    \* @type: Int;
+    droppedAt,
+    \* @type: Int;
+    servedAt
 
 vars == << phase, now, stageStart, dHello, dFin, droppedAt, servedAt >>
 
